@@ -1,7 +1,7 @@
 """group `comb2`: hand-written convenience combinators against K-contracts = the PEG evaluation of their
 documented expansion (C09), with RC-REWIND / RC-MONO (C02), exception propagation (C05):
 until<C>, until<C,R>, rep<N,R>, rep_opt<N,R>, rep_min_max<Min,Max,R>, if_then_else, strict, star_strict."""
-from vfcore import R, E, A, Contract, Job
+from vfcore import R, E, A, Contract, Job, Clause
 from common import *
 import g_pos
 
@@ -212,7 +212,11 @@ def jobs(tier):
         con.add(E('vf_canary', 'canary_exit'))
         stubs = [(r'^bool vf::R<\d+>::match<', stub)]
         if op == 'until1':
-            stubs += g_pos.pos_stubs()
+            # until< Cond > skips bytes it has not looked at: any of them may be a line ending, so only the line-counting bump()
+            # keeps the eager position right (C06); a call of the other two primitives is a failed precondition
+            stubs += [st_ if 'internal::bump\\(' in st_[0] else
+                      (st_[0], Contract(R('0', 'until-skips-unexamined-bytes-with-the-line-counting-bump', ('C06', 'C09')), Clause('assigns', '')), 'opt')
+                      for st_ in g_pos.pos_stubs()]
         j = Job(rname(op, a, m, tr), NAME, rname(op, a, m, tr), con, ('C09', 'C02', 'C05', 'C11') + (('C06',) if op.startswith('rematch') else ()), stubs=stubs, loops=loops,
                 prelude=comb_prelude(tr) + g_pos.PRE_STUB + REMATCH_PRE[tr],
                 harness=comb_harness('vf_' + INPUT_TYPES[(tr, 'lf_crlf')], tr, 'w_ret = $ENTRY(&in)').replace(
